@@ -240,7 +240,8 @@ type Runner struct {
 	Thorough bool
 	// CrossLight: in the thorough tier, re-check an obligation that z3-new
 	// already discharged with z3 4.8.12 only (cvc5 needs tens of seconds per
-	// query on the pair obligations of C10, of which there are thousands)
+	// query on the pair obligations of C10, of which there are thousands);
+	// used for C10 and for any batch of more than 1500 obligations
 	CrossLight bool
 	mu         sync.Mutex
 	n          int
